@@ -2309,6 +2309,12 @@ mut("ok-twin-C20-9-collecting-scope", "benign", [], "unpin raises and clears its
 mut("dbg-with-closure-replace", "break", ["C20", "C07"], "the thread-wide flag is raised by KEY.with(|c| c.replace(true)) inside a debug_assert! (S-C20-9's slip on the plain tree)",
     [ed(I, "            THREAD_COLLECTING.with(|c| c.set(true));", "            debug_assert!(!THREAD_COLLECTING.with(|c| c.replace(true)));")], ["DBG-PURE"])
 
+# std's fetch_update on the count word (round-9 seeds used it twice): modelled as the CAS loop it is
+mut("ok-fetch-update-try-increment", "benign", [], "try_increment_strong written with AtomicU64::fetch_update",
+    [ed(U, '        let mut old = State::from_raw(self.state.load(Ordering::SeqCst));\n        loop {\n            if old.destructed() {\n                return false;\n            }\n            let new = if old.strong() == 0 {\n                old.add_strong(2)\n            } else {\n                old.add_strong(1)\n            };\n            match self.state.compare_exchange(\n                old.as_raw(),\n                new.as_raw(),\n                Ordering::SeqCst,\n                Ordering::SeqCst,\n            ) {\n                Ok(_) => return true,\n                Err(curr) => old = State::from_raw(curr),\n            }\n        }', '        self.state\n            .fetch_update(Ordering::SeqCst, Ordering::SeqCst, |raw| {\n                let old = State::from_raw(raw);\n                if old.destructed() {\n                    return None;\n                }\n                let new = if old.strong() == 0 {\n                    old.add_strong(2)\n                } else {\n                    old.add_strong(1)\n                };\n                Some(new.as_raw())\n            })\n            .is_ok()')])
+mut("fetch-update-token-missing", "break", ["C01", "C05"], "the same, the closure adding 1 even from zero",
+    [ed(U, '        let mut old = State::from_raw(self.state.load(Ordering::SeqCst));\n        loop {\n            if old.destructed() {\n                return false;\n            }\n            let new = if old.strong() == 0 {\n                old.add_strong(2)\n            } else {\n                old.add_strong(1)\n            };\n            match self.state.compare_exchange(\n                old.as_raw(),\n                new.as_raw(),\n                Ordering::SeqCst,\n                Ordering::SeqCst,\n            ) {\n                Ok(_) => return true,\n                Err(curr) => old = State::from_raw(curr),\n            }\n        }', '        self.state\n            .fetch_update(Ordering::SeqCst, Ordering::SeqCst, |raw| {\n                let old = State::from_raw(raw);\n                if old.destructed() {\n                    return None;\n                }\n                Some(old.add_strong(1).as_raw())\n            })\n            .is_ok()')], ["CW-TOKEN"])
+
 # behaviour-preserving refactorings written by sub-agents told to keep every interleaving's behaviour (selftest/refactors/)
 for f in sorted(glob.glob(os.path.join(HERE, "refactors", "*.diff"))):
     name = os.path.basename(f)[:-5]
